@@ -14,6 +14,6 @@ cd /verif
 out=/verif/.work/alltest/$label.log
 : > $out
 for p in $pids; do
-  HMCLAB_GEN=$S/gen HMCLAB_EVIDENCE=$S/evidence HMCLAB_REPO=$S/repo PYTHONPATH=$S/repo PYTHONHASHSEED=0 timeout 3000 /venv/bin/python check.py $p --tier quick 2>&1 | grep -E "^VIOLATION|^C[0-9][0-9]:" | cut -c1-400 >> $out
+  HMCLAB_GEN=$S/gen HMCLAB_EVIDENCE=$S/evidence HMCLAB_REPO=$S/repo PYTHONPATH=$S/repo PYTHONHASHSEED=0 timeout 3000 /venv/bin/python check.py $p --tier quick 2>&1 | grep -E "^VIOLATION|^C[0-9][0-9]:" | cut -c1-2000 >> $out
 done
 echo "$label: $(grep -c '^VIOLATION' $out) violation lines, $(grep '^VIOLATION' $out | grep -vc 'no-failing-input-found') with a claimed failing input"
